@@ -128,6 +128,94 @@ fn check_after_flags(c: &crate::props::c01::Case, cx: &mut Cx) -> Res {
     Ok(())
 }
 
+
+/// templates as VALUES of override / bump flags: `--major '{{ T }}'` must act exactly like
+/// `--major n`, n being what T evaluates to on the input object (the documented context)
+#[derive(Debug, Clone, Hash, Serialize, Deserialize)]
+pub struct TplFlagCase {
+    pub z: MZerv,
+    pub flag: usize,
+    pub tpl: usize,
+}
+const TPL_FLAGS: [&str; 15] = [
+    "major", "minor", "patch", "epoch", "post", "dev", "pre-release-num", "bump-major", "bump-minor", "bump-patch", "bump-post", "bump-dev", "bump-pre-release-num", "bump-epoch",
+    "pre-release-label",
+];
+const INT_TEMPLATES: [&str; 14] = [
+    "{{ major }}", "{{ minor + 1 }}", "{{ patch * 2 }}", "{{ distance }}", "{{ distance + 41 }}", "{{ 7 }}", "{{ post }}", "{{ dev }}", "{{ epoch }}",
+    "{{ hash_int(value=bumped_branch, length=3) }}", "{{ hash_int(value=bumped_commit_hash, length=5, allow_leading_zero=false) }}", "{% if dirty %}1{% else %}2{% endif %}",
+    "{{ bumped_timestamp % 1000 }}", "{{ custom.meta.n }}",
+];
+const LABEL_TEMPLATES: [&str; 4] = ["{% if major %}rc{% else %}beta{% endif %}", "{% if distance %}alpha{% else %}rc{% endif %}", "{{ pre_release.label }}", "beta"];
+fn check_tpl_flag(c: &TplFlagCase, cx: &mut Cx) -> Res {
+    let zerv = c.z.to_zerv().map_err(|e| Bad::Fail(format!("harness bug: {e}")))?;
+    let ron = zerv.to_string();
+    let flag = TPL_FLAGS[c.flag % TPL_FLAGS.len()];
+    let label = flag == "pre-release-label";
+    let tpl = if label { LABEL_TEMPLATES[c.tpl % LABEL_TEMPLATES.len()] } else { INT_TEMPLATES[c.tpl % INT_TEMPLATES.len()] };
+    // what the template evaluates to on the input object
+    let value = match render_tpl(&ron, tpl) {
+        cli::Run::Ok(s) => s.strip_prefix("<<").and_then(|x| x.strip_suffix(">>")).map(String::from),
+        cli::Run::Panic(p) => return fail(format!("template {tpl:?} panicked: {p}")),
+        _ => None,
+    };
+    let run = |v: &str| cli::version(&["--source=stdin".to_string(), format!("--{flag}={v}"), "--output-format=zerv".to_string()], Some(&ron));
+    let with_tpl = run(tpl);
+    if let cli::Run::Panic(p) = &with_tpl {
+        return fail(format!("--{flag}={tpl:?} panicked: {p}"));
+    }
+    cx.label(flag);
+    let usable = value.as_ref().is_some_and(|v| if label { matches!(v.as_str(), "alpha" | "beta" | "rc") } else { !v.is_empty() && v.len() <= 9 && v.bytes().all(|b| b.is_ascii_digit()) });
+    cx.nt_if(usable);
+    if !usable {
+        cx.label("template-without-usable-value");
+        return Ok(());
+    }
+    let v = value.unwrap();
+    let with_val = run(&v);
+    cx.note(|| format!("--{flag}={tpl:?} (= {v}) -> {}", with_tpl.describe().chars().take(80).collect::<String>()));
+    match (&with_tpl, &with_val) {
+        (cli::Run::Ok(a), cli::Run::Ok(b)) => ensure!(a == b, "--{flag}={tpl:?} differs from --{flag}={v} although the template evaluates to {v:?} on the input object:\n--- with the template\n{a}\n--- with the value\n{b}"),
+        (a, b) => ensure!(a.is_ok() == b.is_ok(), "--{flag}={tpl:?} gives {} but --{flag}={v} gives {}", a.describe(), b.describe()),
+    }
+    Ok(())
+}
+
+
+/// literal text around a placeholder is copied, and does not change what the placeholder
+/// renders (Tera switches HTML auto-escaping on by the *name* of a template, for one thing)
+#[derive(Debug, Clone, Hash, Serialize, Deserialize)]
+pub struct AffixCase {
+    pub z: MZerv,
+    pub tpl: usize,
+    pub prefix: usize,
+    pub suffix: usize,
+}
+const VALUE_TEMPLATES: [&str; 10] = [
+    "{{ bumped_branch }}", "{{ semver }}", "{{ pep440 }}", "{{ bumped_commit_hash }}", "{{ prefix(value=bumped_branch, length=8) }}", "{{ prefix_if(value=bumped_branch, prefix=\"/\") }}",
+    "{{ sanitize(value=bumped_branch, preset=\"dotted\") }}", "{{ custom | json_encode() }}", "{{ semver_obj.docker }}", "{{ hash(value=bumped_branch, length=9) }}",
+];
+const AFFIXES: [&str; 16] = ["", ".html", ".htm", ".xml", ".txt", ".json", ".md", ".tera", ".j2", "/", "index.html", "report-", "v", "&", "<b>", "'"];
+fn check_affix(c: &AffixCase, cx: &mut Cx) -> Res {
+    let zerv = c.z.to_zerv().map_err(|e| Bad::Fail(format!("harness bug: {e}")))?;
+    let ron = zerv.to_string();
+    let t = VALUE_TEMPLATES[c.tpl % VALUE_TEMPLATES.len()];
+    let (a, b) = (AFFIXES[c.prefix % AFFIXES.len()], AFFIXES[c.suffix % AFFIXES.len()]);
+    let plain = probe(&ron, t)?;
+    let tpl = format!("{a}<<{t}>>{b}");
+    let framed = match cli::version(&["--source=stdin".to_string(), format!("--output-template={tpl}")], Some(&ron)) {
+        cli::Run::Ok(s) => s,
+        cli::Run::Panic(p) => return fail(format!("template {tpl:?} panicked: {p}")),
+        other => return fail(format!("template {tpl:?} failed although {t:?} renders: {}", other.describe())),
+    };
+    cx.nt_if(!a.is_empty() || !b.is_empty());
+    cx.label_if(plain.chars().any(|ch| matches!(ch, '/' | '&' | '<' | '>' | '"' | '\'')), "value-with-html-special-characters");
+    cx.note(|| format!("{tpl:?} -> {framed:?}"));
+    let want = format!("{a}<<{plain}>>{b}");
+    ensure!(framed == want, "template {tpl:?} renders {framed:?}; the placeholder alone renders {plain:?}, so the whole must be {want:?}");
+    Ok(())
+}
+
 #[derive(Debug, Clone, Hash, Serialize, Deserialize)]
 pub enum Fun {
     Hash { length: Option<u64> },
@@ -311,15 +399,47 @@ pub fn property() -> Property {
     )
     .floor(0.5);
     let after = RandomSub::<crate::props::c01::Case>::new("context-after-flags", (16_000, 300_000), |_| crate::props::c01::case_strategy(), check_after_flags).floor(0.2);
+    let tplflags = RandomSub::<TplFlagCase>::new(
+        "template-valued-flags",
+        (12_000, 250_000),
+        |_| {
+            (zg::mzerv(false), 0usize..15, 0usize..14)
+                .prop_map(|(mut z, flag, tpl)| {
+                    if z.vars.dirty == Some(true) {
+                        z.vars.dirty = Some(false);
+                    }
+                    TplFlagCase { z, flag, tpl }
+                })
+                .boxed()
+        },
+        check_tpl_flag,
+    )
+    .floor(0.2);
+    let affix = RandomSub::<AffixCase>::new(
+        "literal-context",
+        (12_000, 250_000),
+        |_| {
+            (zg::mzerv(false), 0usize..10, 0usize..16, 0usize..16)
+                .prop_map(|(mut z, tpl, prefix, suffix)| {
+                    if z.vars.dirty == Some(true) {
+                        z.vars.dirty = Some(false);
+                    }
+                    AffixCase { z, tpl, prefix, suffix }
+                })
+                .boxed()
+        },
+        check_affix,
+    )
+    .floor(0.5);
     Property {
         id: "C15",
-        rule: "cases = (a) Zerv objects (arbitrary valid schemas x vars, clock-free) probed with templates for semver / pep440 / the *_obj parts / docker / every scalar variable, each probe between ASCII sentinels; (a') whole `zerv version` runs (source none / stdin, presets and custom schemas, overrides, bumps, schema-section overrides and bumps): semver / pep440 / recomposed parts / docker / scalars printed by a template against --output-format semver / pep440 / zerv of the same command line; (b) function calls hash, hash_int, prefix, prefix_if, sanitize (presets and knobs), format_timestamp (22 strftime specifiers in random combinations, the two compact names, default, and invalid specifiers) with the value travelling as a variable (arbitrary Unicode text). Oracle: equality with --output-format output for the same stdin object (differential), recomposition identities, the input variables, reference models (oracle::sanitize, oracle::calendar) and the stated length/digit contracts; invalid format strings must give an error, not a panic. Non-trivial = object whose SemVer rendering has a pre-release or build part (a); every function case (b); distinct = distinct cases.",
+        rule: "cases = (a) Zerv objects (arbitrary valid schemas x vars, clock-free) probed with templates for semver / pep440 / the *_obj parts / docker / every scalar variable, each probe between ASCII sentinels; (a') whole `zerv version` runs (source none / stdin, presets and custom schemas, overrides, bumps, schema-section overrides and bumps): semver / pep440 / recomposed parts / docker / scalars printed by a template against --output-format semver / pep440 / zerv of the same command line; (a'') templates as values of override / bump flags (--major '{{ minor + 1 }}', --bump-minor '{{ hash_int(...) }}', --pre-release-label '{% if ... %}'): the run must equal the run with the literal value the template evaluates to on the input object; (a''') literal text before and after a placeholder (file-name endings such as .html/.xml, HTML-special characters) is copied and leaves the placeholder's value unchanged; (b) function calls hash, hash_int, prefix, prefix_if, sanitize (presets and knobs), format_timestamp (22 strftime specifiers in random combinations, the two compact names, default, and invalid specifiers) with the value travelling as a variable (arbitrary Unicode text). Oracle: equality with --output-format output for the same stdin object (differential), recomposition identities, the input variables, reference models (oracle::sanitize, oracle::calendar) and the stated length/digit contracts; invalid format strings must give an error, not a panic. Non-trivial = object whose SemVer rendering has a pre-release or build part (a); every function case (b); distinct = distinct cases.",
         assumptions: vec![
             "objects are clock-free (dirty is not true), so separate runs are comparable",
             "unset variables render as the empty string (Tera prints null as empty)",
             "last_branch is not part of the documented template context",
         ],
-        subs: vec![ctx.boxed(), after.boxed(), funs.boxed()],
+        subs: vec![ctx.boxed(), after.boxed(), tplflags.boxed(), affix.boxed(), funs.boxed()],
         known_repro: vec![],
     }
 }
